@@ -260,6 +260,12 @@ def _tensor_bounds_or_raise(E, idx: Tensor, length, what="index"):
         v = C.as_int(idx.at(*q))
         return z3.Implies(z3.And(*rng), z3.And(v >= -lz, v < lz))
 
+    # the same index tensor against the same length (every field of a dict-of-arrays buffer): decided once per path
+    done = E.st.ghost.setdefault("gather_inb_done", {})
+    ck = (id(idx), lz.get_id())
+    if ck in done:
+        return
+    done[ck] = (idx, lz)  # pins both objects, so the ids stay unique
     sks = [E.st.fresh(f"q{k}", INT) for k in range(n)]
     viol = z3.Not(inb(*sks))
     if E.may(viol, extra_pool=sks):
